@@ -1071,3 +1071,218 @@ Proof.
   intros L W. unfold html_balanced_check. rewrite (html_lex_ser _ L), tok_nest_toks_of.
   unfold well_nested in W. destruct (nest [] evs) as [[|x s]|]; try discriminate W. reflexivity.
 Qed.
+
+(* ------------------------------------------------------------------ Part 5 *)
+(* Lexability of the renderer's events beyond the safe case: for every option record, as long as
+   raw HTML is not passed through (HtmlBlock / HtmlInline nodes are escaped or replaced by the
+   placeholder) and the literals written as is (Raw, EscapedTag) carry no LT.  No S4: h<level> is a
+   lexable tag name for every level.  Also: the renderer writes no attribute named data-sourcepos
+   by name (only through SpAttr). *)
+Definition lexs_ev (e : ev) : bool := lex_ev e && no_own_sp_ev e.
+
+Definition v_raw_ok (o : opts) (v : node_value) : bool :=
+  match v with
+  | Raw l => forallb notlt l
+  | EscapedTag l => forallb notlt l
+  | HtmlBlock _ _ => o_escape o || negb (o_unsafe o)
+  | HtmlInline _ => o_escape o || negb (o_unsafe o)
+  | _ => true
+  end.
+
+Fixpoint raw_ok (o : opts) (n : node) : bool :=
+  match n with Node v _ ch => v_raw_ok o v && forallb (raw_ok o) ch end.
+
+Lemma lexs_split evs : forallb lexs_ev evs = true -> lexable evs = true /\ no_own_sp evs = true.
+Proof.
+  unfold lexable, no_own_sp. induction evs as [|e r IH]; intro H; [split; reflexivity|].
+  cbn [forallb] in *. apply andb_true_iff in H. destruct H as [He Hr].
+  unfold lexs_ev in He. apply andb_true_iff in He. destruct He as [A B].
+  destruct (IH Hr) as [C D]. rewrite A, B, C, D. split; reflexivity.
+Qed.
+
+Lemma digit_tag_byte : forall b, implb (is_digit b) (tag_byte b) = true.
+Proof. apply forall_bytes. vm_compute. reflexivity. Qed.
+
+Lemma dec_tag_bytes n : forallb tag_byte (dec n) = true.
+Proof. apply (forallb_impl is_digit); [intro x; apply implb_use, digit_tag_byte | apply dec_digits]. Qed.
+
+Lemma dec_notlt n : forallb notlt (dec n) = true.
+Proof. apply no_active_notlt_l, dec_no_active. Qed.
+
+Lemma anchorize_no_active slug iss header iss' id :
+  (forall h, forallb no_active_byte (slug h) = true) ->
+  h_anchorize slug iss header = Ok (iss', id) -> forallb no_active_byte id = true.
+Proof.
+  intros SL H. unfold h_anchorize in H.
+  destruct (h_uniq_loop _ _ _ _) as [a| |] eqn:UL; cbn [bind] in H; try discriminate H.
+  injection H as _ <-. pose proof (SL header) as Hid. revert UL Hid.
+  generalize (slug header) as s, 0%N as k, (S (List.length iss)) as fuel. clear.
+  intros s k fuel; revert k. induction fuel as [|f IH]; intros k H Hid; cbn [h_uniq_loop] in H; [discriminate|].
+  destruct (existsb _ iss).
+  - eapply IH; eauto.
+  - injection H as <-. destruct (k =? 0)%N; [exact Hid|].
+    rewrite ?forallb_app, ?forallb_cons, Hid, dec_no_active. reflexivity.
+Qed.
+
+Ltac fin5 := vm_compute; lazymatch goal with |- true = true => reflexivity | _ => fail "residue" end.
+Ltac expose5 :=
+  unfold lexs_ev, heading_tag;
+  cbn [forallb lex_ev no_own_sp_ev attr_lex part_lex own_sp_attr tagname_ok app].
+
+Lemma enter_lexs slug o c v sp ch st e st' m :
+  (forall h, forallb no_active_byte (slug h) = true) -> v_raw_ok o v = true ->
+  enter slug o c (Node v sp ch) st = Ok (e, st', m) -> forallb lexs_ev e = true.
+Proof.
+  intros SL V H. destruct v;
+  unfold enter, sp_attr, align_attr, alert_css, alert_title, url_parts in H; cbv beta iota zeta in H.
+  all: lazymatch type of V with
+  | v_raw_ok _ (Heading _ _) = true =>
+    destruct (o_header_ids o) as [prefix|];
+    [ destruct (h_anchorize _ _ _) as [[iss' id]| |] eqn:AN; cbn [bind] in H; try discriminate H;
+      apply anchorize_no_active in AN; [|exact SL];
+      brk H; okinv3 H; expose5; rewrite AN, ?dec_tag_bytes; fin5
+    | brk H; okinv3 H; expose5; rewrite ?dec_tag_bytes; fin5 ]
+  | v_raw_ok _ (EscapedTag _) = true => cbn [v_raw_ok] in V; okinv3 H; expose5; rewrite V; reflexivity
+  | v_raw_ok _ (Raw _) = true => cbn [v_raw_ok] in V; okinv3 H; expose5; rewrite V; reflexivity
+  | v_raw_ok _ (HtmlBlock _ _) = true =>
+    cbn [v_raw_ok] in V; destruct (o_escape o), (o_unsafe o); try discriminate V; cbn [negb] in H;
+    okinv3 H; fin5
+  | v_raw_ok _ (HtmlInline _) = true =>
+    cbn [v_raw_ok] in V; destruct (o_escape o), (o_unsafe o); try discriminate V; cbn [negb] in H;
+    okinv3 H; fin5
+  | v_raw_ok _ (NList _) = true => brk H; okinv3 H; expose5; rewrite ?dec_no_active; fin5
+  | v_raw_ok _ (FootnoteReference _ _ _) = true => brk H; okinv3 H; expose5; rewrite ?dec_notlt; fin5
+  | _ => brk H; okinv3 H; fin5
+  end.
+Qed.
+
+Lemma backref_loop_lexs name fnix : forall total k,
+  forallb lexs_ev (backref_loop name fnix total k) = true.
+Proof.
+  induction total as [|t IH]; intro k; [reflexivity|].
+  cbn [backref_loop]. rewrite !forallb_app, IH.
+  destruct (1 <? N.of_nat k)%N; expose5; rewrite ?forallb_app; cbn [forallb];
+    rewrite ?dec_no_active, ?dec_notlt; fin5.
+Qed.
+
+Lemma put_backref_lexs name total st :
+  forallb lexs_ev (fst (fst (put_footnote_backref name total st))) = true.
+Proof.
+  unfold put_footnote_backref. destruct (_ <=? _)%N; [reflexivity|].
+  cbn [fst]. apply backref_loop_lexs.
+Qed.
+
+Ltac use_backref5 :=
+  match goal with
+  | E : put_footnote_backref ?n ?t ?s = (?l, _, _) |- _ =>
+    let PB := fresh "PB" in
+    pose proof (put_backref_lexs n t s) as PB; rewrite E in PB; cbn [fst] in PB;
+    cbn [forallb]; rewrite ?forallb_app, PB
+  end.
+
+Lemma alt_no_active ch : forallb no_active_byte (flat_map plain ch) = true.
+Proof. rewrite plain_list_is_escape. apply escape_no_active. Qed.
+
+Lemma exit_lexs o c v sp ch st e st' :
+  v_raw_ok o v = true ->
+  exit_ o c (Node v sp ch) st = Ok (e, st') -> forallb lexs_ev e = true.
+Proof.
+  intros V H. destruct v; unfold exit_, sp_attr, url_parts in H; cbv beta iota zeta in H.
+  all: lazymatch type of V with
+  | v_raw_ok _ (Heading _ _) = true => okinv2 H; expose5; rewrite ?dec_tag_bytes; fin5
+  | v_raw_ok _ (EscapedTag _) = true => cbn [v_raw_ok] in V; okinv2 H; expose5; rewrite V; reflexivity
+  | v_raw_ok _ (Image _ _) = true =>
+    brk H; okinv2 H; rewrite ?forallb_app; expose5; rewrite ?forallb_app; expose5;
+    rewrite ?alt_no_active; fin5
+  | v_raw_ok _ Paragraph = true => brk H; okinv2 H; try use_backref5; fin5
+  | v_raw_ok _ (FootnoteDefinition _ _) = true => brk H; okinv2 H; try use_backref5; fin5
+  | _ => brk H; okinv2 H; fin5
+  end.
+Qed.
+
+Section Traversal5.
+  Variable slug : bytes -> bytes.
+  Variable o : opts.
+  Hypothesis SL : forall h, forallb no_active_byte (slug h) = true.
+
+  Definition render_lexs_at (n : node) : Prop :=
+    raw_ok o n = true ->
+    forall c st e st', render slug o c n st = Ok (e, st') -> forallb lexs_ev e = true.
+
+  Lemma render_list_lexs v pv : forall l,
+    Forall render_lexs_at l -> forallb (raw_ok o) l = true ->
+    forall i prev s e s', render_list slug o v pv l i prev s = Ok (e, s') -> forallb lexs_ev e = true.
+  Proof.
+    induction 1 as [|x r Hx _ IH]; intros HR i prev s e s' H; cbn [render_list] in H.
+    - injection H as <- <-. reflexivity.
+    - cbn [forallb] in HR. apply andb_true_iff in HR. destruct HR as [XR RR].
+      destruct (render slug o _ x s) as [[ex sx]| |] eqn:RX; cbn [bind] in H; try discriminate H.
+      destruct (render_list slug o v pv r _ _ sx) as [[er sr]| |] eqn:RL; cbn [bind] in H; try discriminate H.
+      injection H as <- <-. rewrite forallb_app.
+      rewrite (Hx XR _ _ _ _ RX), (IH RR _ _ _ _ _ RL). reflexivity.
+  Qed.
+
+  Lemma render_lexs : forall n, render_lexs_at n.
+  Proof.
+    induction n as [v sp ch IH] using node_ind2. intros HR c st e st' H.
+    cbn [raw_ok] in HR. apply andb_true_iff in HR. destruct HR as [V CR].
+    rewrite render_unfold in H.
+    destruct (enter slug o c (Node v sp ch) st) as [[[e1 st1] m]| |] eqn:EN; cbn [bind] in H; try discriminate H.
+    apply (enter_lexs _ _ _ _ _ _ _ _ _ _ SL V) in EN.
+    destruct m.
+    - destruct (render_list slug o v _ ch 0 None st1) as [[e2 st2]| |] eqn:RL; cbn [bind] in H; try discriminate H.
+      destruct (exit_ o c (Node v sp ch) st2) as [[e3 st3]| |] eqn:EX; cbn [bind] in H; try discriminate H.
+      injection H as <- <-. rewrite !forallb_app, EN.
+      rewrite (render_list_lexs _ _ _ IH CR _ _ _ _ _ RL), (exit_lexs _ _ _ _ _ _ _ _ V EX). reflexivity.
+    - cbn [bind] in H.
+      destruct (exit_ o c (Node v sp ch) st1) as [[e3 st3]| |] eqn:EX; cbn [bind] in H; try discriminate H.
+      injection H as <- <-. rewrite !forallb_app, EN, (exit_lexs _ _ _ _ _ _ _ _ V EX). reflexivity.
+  Qed.
+
+  Lemma finish_lexs st : forallb lexs_ev (finish st) = true.
+  Proof. unfold finish. destruct (0 <? fn_ix st)%N; fin5. Qed.
+
+  Lemma events_lexs t evs :
+    raw_ok o t = true -> events slug o t = Ok evs -> forallb lexs_ev evs = true.
+  Proof.
+    intros HR H. unfold events in H.
+    destruct (render slug o root_ctx t _) as [[e st]| |] eqn:R; cbn [bind] in H; try discriminate H.
+    injection H as <-. rewrite forallb_app, (render_lexs t HR _ _ _ _ R), finish_lexs. reflexivity.
+  Qed.
+End Traversal5.
+
+Theorem events_lexable slug o t evs :
+  (forall h, forallb no_active_byte (slug h) = true) -> raw_ok o t = true ->
+  events slug o t = Ok evs -> lexable evs = true /\ no_own_sp evs = true.
+Proof. intros SL HR H. apply lexs_split. exact (events_lexs slug o SL t evs HR H). Qed.
+
+(* the three ways raw HTML is not passed through *)
+Fixpoint no_html_nodes (n : node) : bool :=
+  match n with
+  | Node v _ ch =>
+    (match v with HtmlBlock _ _ => false | HtmlInline _ => false | _ => true end) && forallb no_html_nodes ch
+  end.
+
+(* literals written as is: Raw and EscapedTag *)
+Fixpoint lits_notlt (n : node) : bool :=
+  match n with
+  | Node v _ ch =>
+    (match v with Raw l => forallb notlt l | EscapedTag l => forallb notlt l | _ => true end) &&
+    forallb lits_notlt ch
+  end.
+
+Lemma raw_ok_intro o : forall t,
+  lits_notlt t = true ->
+  (o_unsafe o = false \/ o_escape o = true \/ no_html_nodes t = true) -> raw_ok o t = true.
+Proof.
+  induction t as [v sp ch IH] using node_ind2. intros L C.
+  cbn [lits_notlt] in L. apply andb_true_iff in L. destruct L as [Lv Lc].
+  cbn [raw_ok]. apply andb_true_iff. split.
+  - destruct v; try reflexivity; try exact Lv; cbn [v_raw_ok];
+      (destruct C as [C|[C|C]]; [rewrite C; apply orb_true_r | rewrite C; reflexivity |
+        cbn [no_html_nodes] in C; discriminate C]).
+  - rewrite forallb_forall in *. rewrite Forall_forall in IH. intros x Hx. apply (IH x Hx (Lc x Hx)).
+    destruct C as [C|[C|C]]; [left; exact C | right; left; exact C | right; right].
+    cbn [no_html_nodes] in C. apply andb_true_iff in C. destruct C as [_ C].
+    rewrite forallb_forall in C. exact (C x Hx).
+Qed.
